@@ -22,7 +22,7 @@ theorem sgpr_writes_are_abi (f : Flags) (a : Args) (h : CountsFit f a) :
     emuInitS f a = abiWrites f a ∧ timingInitS f a = abiWrites f a :=
   ⟨initS_eq_abiWrites f a h, initS_eq_abiWrites f a h⟩
 
-/-- **sgpr_image_is_abi** (= `sgpr_image_is_abi_full` restricted to `CountsFit`). The register file
+/-- **sgpr_image_is_abi** (under `CountsFit`; `sgpr_image_is_abi_full_all` needs only a typed packet). The register file
     after initialisation: SGPR `r` holds what the ABI puts there, registers the ABI leaves undefined
     (fields whose content the simulator does not provide, registers beyond the enabled ones) keep
     their old value; no other lane/cell is touched. Both modes. -/
@@ -45,7 +45,7 @@ theorem sgpr_regs_written_once (f : Flags) (a : Args) (h : CountsFit f a) :
   rw [(sgpr_writes_are_abi f a h).1]
   exact ⟨(abiWrites_cells f a).2, (abiWrites_cells f a).1, usedBy_order_le f⟩
 
-/-- **sgpr_wgcount_matches_grid.** Inside the bound the `uint32` expression of both modes is the
+/-- **sgpr_wgcount_matches_grid.** Inside the old bound the count expression of both modes is the
     number of work-groups the grid builder produces along the axis (`Geo.nx = nwg`, `wgs_enumerate`). -/
 theorem sgpr_wgcount_matches_grid (g w : Nat) (hg : 1 ≤ g) (hw : 1 ≤ w) (h : g + w ≤ 4294967296) :
     wgCount g w = nwg g w ∧ wgCount g w = nwgI g w := by
@@ -56,10 +56,23 @@ theorem sgpr_wgcount_matches_grid (g w : Nat) (hg : 1 ≤ g) (hw : 1 ≤ w) (h :
 def sgpr_wgcount_full : Prop :=
   ∀ g w : Nat, 1 ≤ g → g < 4294967296 → 1 ≤ w → w < 65536 → wgCount g w = nwg g w
 
-/-- **sgpr_wgcount_full_refuted.** Grid 4294967295, work-group 64: `GridSize + 64 - 1` wraps in
-    `uint32`, the register holds 0, the grid builder produces 67108864 work-groups along the axis
-    (replayed on both real functions: `C08.sgpr.wgcount.wrap`, finding C08-wgcount-sgpr-wraps). -/
-theorem sgpr_wgcount_full_refuted : ¬ sgpr_wgcount_full := by
+/-- the same statement about the expression before the repair (`uint32` arithmetic) -/
+def sgpr_wgcount_before_fix_full : Prop :=
+  ∀ g w : Nat, 1 ≤ g → g < 4294967296 → 1 ≤ w → w < 65536 → wgCountOld g w = nwg g w
+
+/-- **sgpr_wgcount_full holds (repaired code).** Both modes compute the ceiling division in 64 bits:
+    for every `uint32` grid size and `uint16` work-group size the register holds the number of
+    work-groups the grid builder produces along the axis — also for `GridSize > 2^32 − WorkgroupSize`. -/
+theorem sgpr_wgcount_full_all : sgpr_wgcount_full := by
+  intro g w hg hg' hw hw'
+  rw [wgCount_typed g w hg' hw', nwgI_eq g w hg hw]
+
+example : wgCount 4294967295 64 = 67108864 ∧ nwg 4294967295 64 = 67108864 := by decide
+
+/-- **sgpr_wgcount_before_fix_refuted.** Grid 4294967295, work-group 64: `GridSize + 64 - 1` wrapped in
+    `uint32`, the register held 0, the grid builder produces 67108864 work-groups along the axis
+    (former finding C08-wgcount-sgpr-wraps). -/
+theorem sgpr_wgcount_before_fix_refuted : ¬ sgpr_wgcount_before_fix_full := by
   intro h
   have := h 4294967295 64 (by decide) (by decide) (by decide) (by decide)
   exact absurd this (by decide)
@@ -71,14 +84,23 @@ def sgpr_image_is_abi_full : Prop :=
     (1 ≤ a.wx ∧ a.wx < 65536 ∧ 1 ≤ a.wy ∧ a.wy < 65536 ∧ 1 ≤ a.wz ∧ a.wz < 65536) →
     lastW (emuInitS f a) (0, r) = abiImage f a r
 
-/-- **sgpr_image_is_abi_full_refuted.** Only the count register is enabled; grid 4294967295 × 1 × 1,
-    work-group 64 × 1 × 1: s0 holds 0, the ABI value is 67108864. `sgpr_image_is_abi` is the
-    partial statement (`CountsFit`). -/
-theorem sgpr_image_is_abi_full_refuted : ¬ sgpr_image_is_abi_full := by
-  intro h
-  have := h ⟨false, false, false, false, false, false, false, true, false, false, false, false, false⟩
-    ⟨0, 0, 4294967295, 1, 1, 64, 1, 1, 0, 0, 0⟩ 0 (by decide) (by decide)
-  exact absurd this (by decide)
+/-- **sgpr_writes_are_abi_typed / sgpr_image_is_abi_full holds (repaired code).** For every typed
+    dispatch packet and every one of the 2^13 flag sets both modes issue exactly the ABI's register
+    writes, and the register image is the ABI image (TRUE work-group counts). Before the repair the
+    count register of grid 4294967295 × 1 × 1, work-group 64 × 1 × 1 held 0 instead of 67108864
+    (`sgpr_wgcount_before_fix_refuted`). -/
+theorem sgpr_writes_are_abi_typed (f : Flags) (a : Args) (h : CountsTyped f a) :
+    emuInitS f a = abiWrites f a ∧ timingInitS f a = abiWrites f a :=
+  ⟨initS_eq_abiWrites_typed f a h, initS_eq_abiWrites_typed f a h⟩
+
+theorem sgpr_image_is_abi_full_all : sgpr_image_is_abi_full := by
+  intro f a r hg hw
+  have ht : CountsTyped f a := ⟨fun _ => ⟨hg.1, hw.2.1⟩, fun _ => ⟨hg.2.1, hw.2.2.2.1⟩, fun _ => ⟨hg.2.2, hw.2.2.2.2.2⟩⟩
+  rw [(sgpr_writes_are_abi_typed f a ht).1]
+  exact lastW_abiWrites f a r
+
+example : lastW (emuInitS ⟨false, false, false, false, false, false, false, true, false, false, false, false, false⟩
+    ⟨0, 0, 4294967295, 1, 1, 64, 1, 1, 0, 0, 0⟩) (0, 0) = some 67108864 := by decide
 
 theorem sgpr_image_is_abi_partial (f : Flags) (a : Args) (h : CountsFit f a) (r : Nat) :
     lastW (emuInitS f a) (0, r) = abiImage f a r := (sgpr_image_is_abi f a h r).1.1
